@@ -34,6 +34,7 @@ type c10req struct {
 	arriveSeq uint64
 	listenAt  time.Duration // when it started listening (TTL timer start)
 	queued    bool          // pushed onto the heap (dpq.queued)
+	queuedT   time.Duration // instant of that decision
 	queuedSeq uint64
 	stamp     int64 // engine timestamp of the request, unix ns (rank tie-break)
 	left      bool  // gave its waiter slot back (dpq.left)
@@ -136,7 +137,7 @@ func runC10(s *kernel.Sim) {
 		}
 		switch kind {
 		case "dpq.queued":
-			r.queued, r.queuedSeq = true, s.Seq()
+			r.queued, r.queuedSeq, r.queuedT = true, s.Seq(), s.Now()
 			r.stamp, _ = strconv.ParseInt(a[1], 10, 64)
 		case "dpq.left":
 			r.left, r.leftSeq = true, s.Seq()
@@ -346,6 +347,24 @@ func runC10(s *kernel.Sim) {
 	}
 	if len(grants) > 0 && len(order) > int(quota) {
 		s.Nontrivial()
+	}
+	// a request is made to wait only if the quota of the window it arrives in is
+	// used up: every slot of that window was handed out before its decision
+	s.Rule("R5")
+	for _, r := range order {
+		if !r.queued {
+			continue
+		}
+		k, used := int64(r.queuedT/W), int64(0)
+		for _, g := range grants {
+			if g.seq < r.queuedSeq && int64(g.t/W) == k {
+				used++
+			}
+		}
+		if used < quota {
+			s.Violate("R5", "queued-although-a-slot-was-free", "%s was made to wait at %v although only %d of the %d slots of window %d had been handed out", r.id, r.queuedT, used, quota, k)
+			break
+		}
 	}
 	for _, r := range order {
 		if !r.done {
